@@ -80,6 +80,16 @@ fn either_order_ok(t: &Trans) -> bool {
 }
 
 impl E1Oracle for C01Oracle {
+    fn warmup(&mut self, g: &G, alphabet: &Alphabet) {
+        let _ = (real_nodes(g), real_edge_multiset(g), g.number_of_edges(), g.number_of_nodes());
+        for &n in &alphabet.names {
+            let _ = g.get_node(n);
+            for &m in &alphabet.names {
+                let _ = g.get_edges(n, m);
+                let _ = g.get_edge(n, m);
+            }
+        }
+    }
     fn transition(&mut self, t: &Trans, rec: &Recorder, c: &mut Counters) {
         let hist2: Vec<u16> = t.hist.iter().cloned().chain(std::iter::once(t.op_idx)).collect();
         let case = || case_id(t.spec_idx, t.alphabet.name, &hist2, "");
